@@ -42,6 +42,14 @@ impl Covercrypt {
     /// Generates a MSK and a MPK only holing broadcasting keys, and with a
     /// tracing level of [`MIN_TRACING_LEVEL`](core::MIN_TRACING_LEVEL).
     pub fn setup(&self) -> Result<(MasterSecretKey, MasterPublicKey), Error> {
+        #[cfg(cosmian_cover_crypt_verif)]
+        if crate::verif_emit::active() {
+            let r = crate::verif_emit::guard(|| self.setup());
+            if let Ok((msk, mpk)) = &r {
+                crate::verif_emit::emit(serde_json::json!({"op": "setup", "res": "ok", "msk": msk.verif_view(), "mpkv": mpk.verif_view()}));
+            }
+            return r;
+        }
         let mut rng = self.rng.lock().expect("Mutex lock failed!");
         let mut msk = setup(MIN_TRACING_LEVEL, &mut *rng)?;
         let rights = msk.access_structure.omega()?;
@@ -66,6 +74,12 @@ impl Covercrypt {
     // TODO: this function should be internalized and replaced by specialized
     // functions.
     pub fn update_msk(&self, msk: &mut MasterSecretKey) -> Result<MasterPublicKey, Error> {
+        #[cfg(cosmian_cover_crypt_verif)]
+        if crate::verif_emit::active() {
+            let r = crate::verif_emit::guard(|| self.update_msk(msk));
+            crate::verif_emit::emit(crate::verif_emit::with_mpk(serde_json::json!({"op": "update"}), msk, &r));
+            return r;
+        }
         update_msk(
             &mut *self.rng.lock().expect("Mutex lock failed!"),
             msk,
@@ -84,6 +98,12 @@ impl Covercrypt {
         msk: &mut MasterSecretKey,
         ap: &AccessPolicy,
     ) -> Result<MasterPublicKey, Error> {
+        #[cfg(cosmian_cover_crypt_verif)]
+        if crate::verif_emit::active() {
+            let r = crate::verif_emit::guard(|| self.rekey(msk, ap));
+            crate::verif_emit::emit(crate::verif_emit::with_mpk(serde_json::json!({"op": "rekey", "pol": crate::verif_emit::dnf(ap)}), msk, &r));
+            return r;
+        }
         rekey(
             &mut *self.rng.lock().expect("Mutex lock failed!"),
             msk,
@@ -103,6 +123,12 @@ impl Covercrypt {
         msk: &mut MasterSecretKey,
         ap: &AccessPolicy,
     ) -> Result<MasterPublicKey, Error> {
+        #[cfg(cosmian_cover_crypt_verif)]
+        if crate::verif_emit::active() {
+            let r = crate::verif_emit::guard(|| self.prune_master_secret_key(msk, ap));
+            crate::verif_emit::emit(crate::verif_emit::with_mpk(serde_json::json!({"op": "prune", "pol": crate::verif_emit::dnf(ap)}), msk, &r));
+            return r;
+        }
         prune(msk, &msk.access_structure.ap_to_usk_rights(ap)?);
         msk.mpk()
     }
@@ -117,6 +143,13 @@ impl Covercrypt {
         msk: &mut MasterSecretKey,
         ap: &AccessPolicy,
     ) -> Result<UserSecretKey, Error> {
+        #[cfg(cosmian_cover_crypt_verif)]
+        if crate::verif_emit::active() {
+            let r = crate::verif_emit::guard(|| self.generate_user_secret_key(msk, ap));
+            let ev = serde_json::json!({"op": "keygen", "pol": crate::verif_emit::dnf(ap), "res": crate::verif_emit::res(&r)});
+            crate::verif_emit::emit(crate::verif_emit::with_usk(ev, msk, r.as_ref().ok()));
+            return r;
+        }
         usk_keygen(
             &mut *self.rng.lock().expect("Mutex lock failed!"),
             msk,
@@ -142,6 +175,14 @@ impl Covercrypt {
         usk: &mut UserSecretKey,
         keep_old_secrets: bool,
     ) -> Result<(), Error> {
+        #[cfg(cosmian_cover_crypt_verif)]
+        if crate::verif_emit::active() {
+            let before = usk.verif_view();
+            let r = crate::verif_emit::guard(|| self.refresh_usk(msk, usk, keep_old_secrets));
+            let ev = serde_json::json!({"op": "refresh", "keep": keep_old_secrets, "res": crate::verif_emit::res(&r), "before": before});
+            crate::verif_emit::emit(crate::verif_emit::with_usk(ev, msk, Some(usk)));
+            return r;
+        }
         refresh(
             &mut *self.rng.lock().expect("Mutex lock failed!"),
             msk,
@@ -158,6 +199,15 @@ impl Covercrypt {
         mpk: &MasterPublicKey,
         encapsulation: &XEnc,
     ) -> Result<(Secret<32>, XEnc), Error> {
+        #[cfg(cosmian_cover_crypt_verif)]
+        if crate::verif_emit::active() {
+            let r = crate::verif_emit::guard(|| self.recaps(msk, mpk, encapsulation));
+            let mut ev = crate::verif_emit::enc_event("recaps", mpk, &r);
+            ev["from"] = encapsulation.verif_view();
+            ev["msk"] = msk.verif_view();
+            crate::verif_emit::emit(ev);
+            return r;
+        }
         let (_ss, rights) = full_decaps(msk, encapsulation)?;
         // Rights that can still be opened but for which the MPK holds no
         // encryption key (disabled since) cannot be targeted anymore.
@@ -189,6 +239,14 @@ impl KemAc<SHARED_SECRET_LENGTH> for Covercrypt {
         ek: &Self::EncapsulationKey,
         ap: &AccessPolicy,
     ) -> Result<(Secret<SHARED_SECRET_LENGTH>, Self::Encapsulation), Self::Error> {
+        #[cfg(cosmian_cover_crypt_verif)]
+        if crate::verif_emit::active() {
+            let r = crate::verif_emit::guard(|| self.encaps(ek, ap));
+            let mut ev = crate::verif_emit::enc_event("encaps", ek, &r);
+            ev["pol"] = crate::verif_emit::dnf(ap);
+            crate::verif_emit::emit(ev);
+            return r;
+        }
         primitives::encaps(
             &mut *self.rng.lock().expect("Mutex lock failed!"),
             ek,
@@ -201,6 +259,17 @@ impl KemAc<SHARED_SECRET_LENGTH> for Covercrypt {
         dk: &Self::DecapsulationKey,
         enc: &Self::Encapsulation,
     ) -> Result<Option<Secret<SHARED_SECRET_LENGTH>>, Error> {
+        #[cfg(cosmian_cover_crypt_verif)]
+        if crate::verif_emit::active() {
+            let r = crate::verif_emit::guard(|| self.decaps(dk, enc));
+            let out = match &r {
+                Ok(Some(s)) => crate::verif_emit::secret_fp(&s[..]),
+                Ok(None) => "none".to_string(),
+                Err(_) => "err".to_string(),
+            };
+            crate::verif_emit::emit(serde_json::json!({"op": "decaps", "res": "ok", "uskv": dk.verif_view(), "encv": enc.verif_view(), "out": out}));
+            return r;
+        }
         primitives::decaps(&mut *self.rng.lock().expect("Mutex lock failed!"), dk, enc)
     }
 }
